@@ -652,9 +652,21 @@ func isInvalidType(t types.Type) bool {
 	return ok && b.Kind() == types.Invalid
 }
 
+// orderInsensitive: iteration order of maps inside these functions cannot
+// influence their result (they only copy entries into another map).
+var orderInsensitive = []string{"github.com/samber/lo.PickBy", "github.com/samber/lo.OmitBy", "maps.Copy", "maps.Clone", ").DeepCopyInto", ").DeepCopy"}
+
 func (x *Exec) fixedMapOrder(st *State) bool {
-	_, ok := st.ghost["$fixedMapOrder"]
-	return ok
+	if _, ok := st.ghost["$fixedMapOrder"]; ok {
+		return true
+	}
+	fn := fnName(st.top().fn)
+	for _, s := range orderInsensitive {
+		if strings.HasPrefix(fn, s) || (s[0] == ')' && strings.HasSuffix(fn, s)) {
+			return true
+		}
+	}
+	return false
 }
 
 // ---------- globals ----------
